@@ -152,8 +152,8 @@ def run(chk, gate, status):
     cterms = [f"showPC (parse_concentration ({cstr('g')}, {cstr('mL')}) {coq_conc(d)})" for d in ccases]
     model, errors = common.coq_eval('C14', 'Base Units Parse', qterms + cterms, chunk=1500, defs="Open Scope string_scope.")
     # ---------------- string-level malformations (glue of the model; judged by the oracle only)
-    malformed_q = ['1mL', '1  mL', '1 mL ', ' 1 mL', '', 'mL', '1', 'one mL', '1,5 mL', '1 m L', '1_0 mL'[:0] + '1.2.3 mL', '0x10 mL', '1/2 mL', '12abc mmol']
-    malformed_c = ['1', '1 mol', '1 mol/L/L', '1mol/L', '1 /L', '1 mol/', 'M', '1 %', '5%w/w', '1 mol per L', 'abc M', '1,5 M', '1 mol/x L', '1 mol/1,5 L']
+    malformed_q = ['1mL', '1  mL', '1 mL ', ' 1 mL', '', 'mL', '1', 'one mL', '1,5 mL', '1 m L', '1_0 mL'[:0] + '1.2.3 mL', '0x10 mL', '1/2 mL', '12abc mmol', 'nan mL', 'NaN mol', '-nan g']
+    malformed_c = ['1', '1 mol', '1 mol/L/L', '1mol/L', '1 /L', '1 mol/', 'M', '1 %', '5%w/w', '1 mol per L', 'abc M', '1,5 M', '1 mol/x L', '1 mol/1,5 L', 'nan M', 'nan mol/L', '1 mol/nan L', 'nan %w/w']
     ndis = nfail = 0
     nontrivial = set()
     samples = []
